@@ -158,7 +158,7 @@ def choose_op(rng, b, idc, prev=None):
         if not held or r < 0.16:
             idc[0] += 1
             return ("create", rng.choice(VOCAB), ("n%d" % idc[0]) if rng.random() < 0.5 else None,
-                    rng.choice([None, "c1", "x1", "text"]))
+                    rng.choice([None, "c1", "x1", "text", ""]))
         k = rng.randrange(len(held))
         n = held[k]
         if r < 0.26:
@@ -224,6 +224,7 @@ def apply_op(b, op, jc, stats=None):
     from metapype.model import metapype_io
     from metapype.eml import validate, references
     held = b.held
+    op = tuple(HL.fresh(x) for x in op)          # new str objects for every name / id / value
     k = op[0]
     if k == "create":
         n = Node(op[1], id=op[2], content=op[3])
@@ -371,6 +372,82 @@ def run_history(ctx, oplog_or_none, rng, length):
     return log
 
 
+# ------------------------------------------------------------------ dropped references (lesson h)
+def _make_tree(rng, idc, jc):
+    """Build one tree through a random public route; returns its root. Called from a frame that is
+    left before the lookup, so the only references that survive are the ones the caller keeps."""
+    from metapype.model.node import Node
+    from metapype.model import metapype_io
+    route = rng.choice(["ctor", "ctor", "xml", "json", "copy"])
+    if route == "xml":
+        return metapype_io.from_xml(random_xml(rng))
+    idc[0] += 1
+    root = Node("".join(list("dataset")), id=("".join(list("g%d" % idc[0])) if rng.random() < 0.5 else None))
+    nodes = [root]
+    for _ in range(rng.randint(0, 5)):
+        c = Node(rng.choice(VOCAB), content=rng.choice([None, "", "t"]))
+        rng.choice(nodes).add_child(c)
+        nodes.append(c)
+    if route == "json":
+        return metapype_io.from_json(fresh_json(root, jc))      # root (registered too) is dropped by the caller's frame
+    if route == "copy":
+        return root.copy()
+    return root
+
+
+def _gc_round(rng, idc, jc, expect, gone, keep):
+    from metapype.model.node import Node
+    root = _make_tree(rng, idc, jc)
+    nodes = subtree_nodes(root)
+    mode = rng.choice(["root", "nothing", "nothing", "inner"])
+    # an explicit delete is the only thing that may make an id unavailable
+    doomed = set()
+    if rng.random() < 0.3:
+        x = rng.choice(nodes)
+        ch = rng.random() < 0.5
+        doomed = {y.id for y in (subtree_nodes(x) if ch else [x])}
+        Node.delete_node_instance(x.id, children=ch)
+    for y in nodes:
+        (gone if y.id in doomed else expect).append((y.id, y.name))
+    if mode == "root":
+        keep.append(root)
+    elif mode == "inner":
+        keep.append(rng.choice(nodes))
+
+
+def gc_phase(ctx, rng, rounds):
+    """create / import / copy trees, keep only their ids (for some the root or one inner node, for most
+    nothing), collect garbage, then every id that was not deleted must still be retrievable"""
+    import gc
+    from metapype.model.node import Node
+    Node.store.clear()
+    expect, gone, keep = [], [], []
+    idc, jc = [0], [0]
+    for _ in range(rounds):
+        _gc_round(rng, idc, jc, expect, gone, keep)
+    # trees built for json/copy routes leave their source trees registered too; they were created, never
+    # deleted, and are not tracked individually: only the tracked ids are checked
+    gc.collect()
+    gc.collect()
+    for ident, name in expect:
+        ctx.case(("gc", len(expect)), False)
+        n = Node.get_node_instance(ident)
+        if n is None or n.id != ident or n.name != name:
+            ctx.fail("C14:gc:lookup", "a node that was created and never deleted is not retrievable by its id once the caller holds no reference to it",
+                     {"kind": "impl-vs-statement", "phase": "build trees, keep only ids (some roots), gc.collect(), look up",
+                      "id": ident, "name": name, "got": None if n is None else [n.id, n.name], "trees": rounds,
+                      "how": "t = Node('dataset'); i = t.id; del t; gc.collect(); Node.get_node_instance(i)"})
+            break
+    for ident, name in gone:
+        if Node.get_node_instance(ident) is not None:
+            ctx.fail("C14:gc:deleted-still-registered", "a deleted id is still retrievable", {"kind": "impl-vs-statement", "id": ident})
+            break
+    ctx.count("gc_phase_ids_checked", len(expect))
+    ctx.count("gc_phase_ids_deleted", len(gone))
+    ctx.case(("gc-phase", rounds), True)
+    keep.clear()
+
+
 # ------------------------------------------------------------------ (B) model scripts
 def gen_model_script(rng):
     names = ["a", "b"]
@@ -456,6 +533,21 @@ def run(ctx):
         log = run_history(ctx, None, ctx.rng, length)
         if i < 2:
             ctx.sample({"history_prefix": [list(o) for o in log[:10]]})
+    gc_phase(ctx, ctx.rng, 300 if thorough else 60)
+    # ---- one wide tree (more than 256 children), delete with children
+    from metapype.model.node import Node
+    Node.store.clear()
+    wide = Node("dataset")
+    for i in range(300):
+        wide.add_child(Node("title", content="".join(list("c%d" % i))))
+    wid = [x.id for x in subtree_nodes(wide)]
+    other = Node("eml")
+    Node.delete_node_instance(wide.id, children=True)
+    if set(Node.store.keys()) != {other.id}:
+        ctx.fail("C14:delete:domain", "deleting a node with 300 children did not remove exactly its subtree's ids",
+                 {"kind": "impl-vs-statement", "history": "dataset with 300 title children + one eml node; delete(dataset.id, children=True)",
+                  "left": sorted(set(Node.store.keys()) - {other.id})[:5], "lost": other.id not in Node.store})
+    ctx.case(("delete", "wide-300"), True)
     # ---- (B)
     terms, metas = [], []
     nscripts = 1200 if thorough else 240
@@ -468,6 +560,18 @@ def run(ctx):
             ctx.count("model_script_raises:" + raised[1])
         terms.append(term)
         metas.append(sc)
+        # the runs made for (B) also go through the statement: entries keyed by the id of the object they hold,
+        # lookups return that object, and an object whose id was never passed to delete is registered
+        deleted_ids = {w.cid(w.idof(c[1])) for c in sc if c[0] == "delete"}
+        replaced = any(c[0] == "replace" and c[4] for c in sc)
+        for kk, v in w.Node.store.items():
+            if v.id != kk or w.Node.get_node_instance(kk) is not v:
+                ctx.fail("C14:script:key", "a registry entry is keyed by an id its node does not carry", {"kind": "impl-vs-statement", "script": [list(x) for x in sc]})
+        if raised is None and not replaced and not any(c[0] == "delete" and c[2] for c in sc):
+            for o in w.objs:
+                if w.cid(o.id) not in deleted_ids and w.Node.get_node_instance(o.id) is not o:
+                    ctx.fail("C14:script:domain", "a node that no operation of the script discarded is not registered",
+                             {"kind": "impl-vs-statement", "script": [list(x) for x in sc], "id": w.cid(o.id)})
     bad, errors = HL.coq_failing(common, "C14", "corr", terms, shard=40)
     ctx.extra["traces_validated_against_impl"] = len(terms) - len(bad)
     ctx.extra["model_cases"] = len(terms)
